@@ -260,6 +260,32 @@ theorem generated_getters_safe_concrete (t : Tables) :
         ∀ g ∈ p.2.getters, getterOk (concreteExt t) p.2 d m g :=
   generated_getters_safe (concreteExt t) (concreteExt_hrec t)
 
+/-- **Resolving any offset to any generated table is safe as well**: `off.resolve::<T>(data)` yields
+`NullOffset`, `OutOfBounds`, an error of `T::read`, or a table (over the bytes from `off` on) all of
+whose getters are safe — for every offset value, including ones beyond the data. -/
+theorem resolved_getters_safe (ext : Ext)
+    (hrec : ∀ r vs n, ext.size r vs = .ok n → ext.recRead r vs n = true) :
+    ∀ p ∈ Gen.ReadShapes.allShapes, ∀ (d : Data), d.len < MAXU → ∀ (off : Nat) (argVals : List Nat),
+      match resolve ext p.2 d off argVals with
+      | .null => off = 0
+      | .err _ => True
+      | .ok m => 0 < off ∧ off ≤ d.len ∧ ∀ g ∈ p.2.getters, getterOk ext p.2 (d.splitOff off) m g := by
+  intro p hp d hL off argVals
+  unfold resolve
+  by_cases h0 : off = 0
+  · simp [h0]
+  · rw [if_neg h0]
+    by_cases hle : off ≤ d.len
+    · rw [if_pos hle]
+      cases hr : run ext p.2 (d.splitOff off) argVals with
+      | error e => trivial
+      | ok m =>
+        simp only []
+        refine ⟨Nat.pos_of_ne_zero h0, hle, ?_⟩
+        exact generated_getters_safe ext hrec p hp (d.splitOff off)
+          (by simp only [Data.splitOff]; omega) argVals m hr
+    · simp [hle]
+
 /-- … and none of them can reach the artefact state -/
 theorem generated_never_stuck (ext : Ext) (hext : ∀ r vs, ext.size r vs ≠ .error .stuck) :
     ∀ p ∈ Gen.ReadShapes.allShapes, ∀ (d : Data) (argVals : List Nat),
